@@ -821,31 +821,31 @@ struct TypeOps {
     bool rt_only;        // only the round trip is run (see wire_layout_mismatch)
     void* (*make)(G&);
     // returns false if the serialiser ran out of iovec slots; *sum = total bytes
-    bool (*serialize)(void* m, std::vector<uint8_t>& flat, bool on_stack, size_t* sum);
+    bool (*serialize)(void* m, std::vector<uint8_t>& flat, bool on_stack, size_t* sum, size_t expect);
     void (*model)(ModelWalker&, uint8_t* body);
     void (*live)(LiveWalker&, void* msg);
     void* (*deser)(iovector*);
 };
 template <class T> struct Ops {
     static void* make(G& g) { T* m = g.a.obj<T>(); gen(g, *m); return m; }
-    static bool flatten(SerializerIOV& ser, std::vector<uint8_t>& flat, size_t* sum) {
+    static bool flatten(SerializerIOV& ser, std::vector<uint8_t>& flat, size_t* sum, size_t expect) {
         *sum = ser.iov.sum();
         if (ser.iovfull) return false;
-        if (*sum > (1u << 24)) return true;         // nonsense total: the caller compares sums first
+        if (*sum > (1u << 24) || (expect != SIZE_MAX && *sum != expect)) return true;       // nonsense total: do not copy, the caller compares the sums
         flat.resize(*sum);
         size_t c = ser.iov.memcpy_to(flat.data(), flat.size());
         if (c != flat.size()) vh::machinery_failure("flatten copied a different number of bytes");
         return true;
     }
-    static bool serialize(void* m, std::vector<uint8_t>& flat, bool on_stack, size_t* sum) {
+    static bool serialize(void* m, std::vector<uint8_t>& flat, bool on_stack, size_t* sum, size_t expect) {
         if (on_stack) {
             SerializerIOV st;                        // the way rpc.h uses it
             st.serialize(*(T*)m);
-            return flatten(st, flat, sum);
+            return flatten(st, flat, sum, expect);
         }
         auto ser = new SerializerIOV;
         ser->serialize(*(T*)m);
-        bool ok = flatten(*ser, flat, sum);
+        bool ok = flatten(*ser, flat, sum, expect);
         delete ser;
         return ok;
     }
@@ -1035,7 +1035,7 @@ static void run_input(uint64_t idx, uint64_t case_seed, int variant, int tindex)
     crumb("serialize");
     std::vector<uint8_t> flat;
     size_t sum0 = 0;
-    if (!T.serialize(m, flat, false, &sum0)) { bump(CT_generator_iovfull_skipped); return; }
+    if (!T.serialize(m, flat, false, &sum0, SIZE_MAX)) { bump(CT_generator_iovfull_skipped); return; }
     vh::event();
     const size_t n0 = flat.size(), bodysz = T.bodysz;
     if (n0 != sum0 || n0 < bodysz) { report("roundtrip/short-serialization", "serialize() produced fewer bytes than the message body", "null"); return; }
@@ -1051,7 +1051,7 @@ static void run_input(uint64_t idx, uint64_t case_seed, int variant, int tindex)
         crumb("serialize-on-stack");
         std::vector<uint8_t> f2;
         size_t s2 = 0;
-        bool ok2 = T.serialize(m, f2, true, &s2);
+        bool ok2 = T.serialize(m, f2, true, &s2, n0);
         bump(CT_stack_serializer_compared);
         bool same = ok2 && s2 == n0 && f2.size() == n0;
         if (same && checked) memcpy(&f2[n0 - bodysz], &flat[n0 - bodysz], 4);      // the second call started from a non-zero checksum
@@ -1253,6 +1253,18 @@ static void run_index(uint64_t xseed, uint64_t idx) {
     run_input(idx, cs, variant, t);
 }
 
+// The plainest use there is, exactly as rpc.h's Stub::call() does it: a SerializerIOV as a local variable, serialize(), sum().
+struct P_Flat : Message { int32_t id = 2; buffer b; PROCESS_FIELDS(id, b); };
+__attribute__((noinline)) static size_t stack_probe_sum() {
+    char B[10];
+    memset(B, 'b', sizeof(B));
+    P_Flat m;
+    m.b.assign(B, sizeof(B));
+    SerializerIOV s;
+    s.serialize(m);
+    return s.iov.sum();
+}
+
 // ------------------------------------------------------------------ parent: batches in forked children
 static vh::NamedCounter* g_nc[CT_N];
 static std::set<std::string> g_seen_death_keys;
@@ -1348,6 +1360,17 @@ int main(int argc, char** argv) {
     vh::config("message_types", NTYPES);
     vh::config("variants_per_instance", VARIANTS);
 
+    {
+        size_t got = stack_probe_sum(), want = sizeof(P_Flat) + 10;
+        vh::event();
+        vh::config("stack_probe_bytes", (int64_t)std::min<size_t>(got, INT64_MAX));
+        if (got != want)
+            vh::violation("roundtrip/serializer-on-stack-differs",
+                          "SerializerIOV as a local variable (the way rpc.h uses it) does not serialize a message with one 10-byte buffer to sizeof(message)+10 bytes: "
+                          "stores into iovector::iovs[] (a zero-length array of the base class that the derived IOVectorEntity backs with its own array) are "
+                          "dropped by the optimiser in this build",
+                          vh::JObj().kv("type", "P_Flat{int32 id; buffer b(10 bytes)}").kv("bytes_expected", (uint64_t)want).kv("bytes_reported_by_iov_sum", (uint64_t)got).str());
+    }
     uint64_t next = only >= 0 ? (uint64_t)only : 0, end = only >= 0 ? (uint64_t)only + 1 : N;
     while (next < end) {
         uint64_t to = std::min(end, next + BATCH);
